@@ -5,6 +5,14 @@ import json, subprocess
 BASELINE = json.load(open('/root/.vp/BASELINE.json'))['cmd']
 
 CHECKS = {
+ "C02": dict(level="exploration", design="DESIGN.md §4 C02",
+   text="Every loop of the product iterator expression (closure of 11 base generators under map/filter/take/chain) x body step from the collision alphabet (one per resource shared between generator and body contexts) x placement (top level, call depth 1..5, recursion, inside another loop, inside another generator) x preceding history, plus all 2- and 3-iterator zips, is executed on the real VM and on the coroutine reference model; bound values, interleaved output, loop results and session values must agree.",
+   note="Trusts the reference model's coroutine reading of for/yield (calibrated on all TestCalc iterator rows and the Readme examples); generator-side reads the description leaves open (D-fork) are skipped.",
+   technique="bounded exhaustive enumeration of generator/body/placement/history combinations with conformance checking against an executable reference model"),
+ "C05": dict(level="exploration", design="DESIGN.md §4 C05",
+   text="Totality of compile+run on the real pipeline over unfiltered program families: the adversarial operator/operand/condition/callee/arity product at operand depth 0..2, every statement of up to 4 (5) nodes over an adversarial leaf alphabet at top level and as a function body, the operand-source x context products with the full operand list, the generator families, and every token sequence of length <= 4 (5) the parser accepts. Any host panic, undocumented error class or (in the described domain) non-termination is a violation.",
+   note="Go panics are recovered in-process and attributed by call site; fatal runtime errors kill a worker and are attributed through its progress record. Termination is judged with instruction fuel derived from the reference model's step count.",
+   technique="bounded exhaustive enumeration of accepted programs under instruction fuel with a crash/termination oracle"),
  "C15": dict(level="exploration", design="DESIGN.md §4 C15",
    text="Every operand encoding (3 selectors x 8 kinds x every address from -65540 to 65540), every opcode value combined with every kind triple and boundary address triple, and function values at the boundaries of their fields are encoded and decoded on the real packages; sessions and programs whose constants, name references, jump distances, parameter and local counts cross 2^15 (thorough: 2^16) are run statement by statement through the real processInput path, where each statement must give its value or be refused cleanly.",
    note="Sizes beyond 2^16+2 are not covered; a refusal is recognised by its shape (error line, segments unchanged), not by a fixed message.",
